@@ -53,12 +53,17 @@ def write_aln(ck, rng, rows, protein):
     return f, F
 
 
-def run_case(ck, paths, reftool, idx):
+def run_case(ck, paths, reftool, idx, rel=None):
     rng = ck.rng.__class__(ck.seed * 179424673 + idx)
     kind = rng.choice(["dna", "protein"])
     alpha = gen.DNA if kind == "dna" else gen.AA
     n = rng.randint(2, 60) if rng.random() < 0.8 else rng.randint(2, 8)
-    seqs = gen.family(rng, n, rng.randint(5, 160), alpha, "random", 0.2, 0.05, 4)
+    L_ = rng.randint(5, 160)
+    if idx % 150 == 7 and (ck.tier == "thorough" or idx == 7 and False):
+        # one large comparison: (rows - 1) x residues beyond 2^31
+        n, L_ = rng.choice([(3000, 250), (1300, 1400)])
+        ck.count("large_comparisons_rows_times_residues_over_2e9")
+    seqs = gen.family(rng, n, L_, alpha, "random", 0.2, 0.05, 4) if n < 1000 else [gen.mutate(rng, s0, alpha, 0.1, 0.02, 2) for s0 in [gen.rand_seq(rng, L_, alpha)] for _ in range(n)]
     if kind == "protein":
         seqs = [s + "".join(rng.choice(gen.AA_ONLY) for _ in range(len(s) // 3 + 1)) for s in seqs]
     if rng.random() < 0.25:
@@ -66,6 +71,12 @@ def run_case(ck, paths, reftool, idx):
     names = gen.names(rng, n, rng.choice(["s", "rand", "num", "prefix", "long"]))
     recs = list(zip(names, seqs))
     source = rng.choice(["runs", "runs", "files_random", "files_kalign_vs_random", "identity", "files_with_allgap_row"])
+    if n >= 1000:
+        source = "identity" if rng.random() < 0.5 else "files_random"
+        names = gen.names(rng, n, "s")
+        recs = list(zip(names, seqs))
+        if rel is not None:
+            paths = rel   # a billion column steps: the -O2 build
     allgap_row = None
     if source == "files_with_allgap_row":
         # a row without residues (e.g. a slice of a larger alignment): every residue of the other rows is related to a gap in it
@@ -126,17 +137,21 @@ def run_case(ck, paths, reftool, idx):
         ft, _ = write_aln(ck, rng, T, kind == "protein")
         frp, _ = write_aln(ck, rng, Rp, kind == "protein")
         ftp, _ = write_aln(ck, rng, Tp, kind == "protein")
-        script = ["read 0 %s" % fr, "read 1 %s" % ft, "cmp 0 1", "free 0", "free 1",
-                  "read 0 %s" % frp, "read 1 %s" % ft, "cmp 0 1", "free 0", "free 1",
-                  "read 0 %s" % fr, "read 1 %s" % ftp, "cmp 0 1", "free 0", "free 1"]
-        r, lrecs = common.kvdrv(paths, script, scratch=ck.scratch)
+        fo = rng.choice([["free 0", "free 1"], ["free 1", "free 0"]])   # the order in which the caller releases the two objects varies
+        script = ["read 0 %s" % fr, "read 1 %s" % ft, "cmp 0 1"] + fo + ["read 0 %s" % frp, "read 1 %s" % ft, "cmp 0 1"] + fo[::-1] + [
+                  "read 0 %s" % fr, "read 1 %s" % ftp, "cmp 0 1"] + fo
+        if n >= 1000:
+            script = script[:5]   # one comparison only
+        r, lrecs = common.kvdrv(paths, script, scratch=ck.scratch, timeout=1800, cpu=900)
         if ck.proc_violations(r, ctx, allow_rcs=(0,)):
             return
         cmps = [x for x in lrecs if x.get("op") == "cmp"]
+        if n >= 1000 and len(cmps) == 1:
+            cmps = cmps * 3
         if len(cmps) != 3 or any(x["rc"] != 0 for x in lrecs if x.get("op") == "read"):
             ck.violation("driver-sequence-failed", "read/compare failed: %s" % lrecs, ctx)
             return
-        pairs = [(R, T, cmps[0]), (Rp, T, cmps[1]), (R, Tp, cmps[2])]
+        pairs = [(R, T, cmps[0]), (Rp, T, cmps[1]), (R, Tp, cmps[2])] if n < 1000 else [(R, T, cmps[0])]
         if len(set(round(c["score"], 4) for c in cmps)) != 1 and all(c["rc"] == 0 for c in cmps):
             ck.violation("score-depends-on-row-order", "scores %s for (r,t), (permuted r, t), (r, permuted t)" % [c["score"] for c in cmps], dict(ctx, R=R, T=T))
     for (A, B, c) in pairs:
@@ -168,7 +183,8 @@ def run(ck, tier):
     reftool = build_ref()["reftool"]
     sc = getattr(ck, "scale", 1.0)
     n = int((300 if tier == "quick" else 4000) * sc)
-    common.pmap(lambda i: run_case(ck, paths, reftool, i), range(n), workers=12)
+    rel = build("rel")
+    common.pmap(lambda i: run_case(ck, paths, reftool, i, rel), range(n), workers=12)
     buckets = [k for k in ck.cov if k.startswith("score_bucket_")]
     if len(buckets) < 4:
         ck.note_inconclusive("score histogram spans only %d buckets" % len(buckets))
@@ -182,7 +198,7 @@ def run(ck, tier):
 def replay(ck, doc):
     paths = build("asan")
     reftool = build_ref()["reftool"]
-    run_case(ck, paths, reftool, doc["replay"]["idx"])
+    run_case(ck, paths, reftool, doc["replay"]["idx"], build("rel"))
     with ck.lock:
         ck.nontrivial |= set(range(30))
         for b in range(5):
